@@ -64,4 +64,133 @@ def run(ctx, rep):
                 starts.add(y["def"].split("::")[-1])
     rep.ob("reversal", "both-legacy-names", {"CTORS_SECTION_NAME", "DTORS_SECTION_NAME"} <= starts, f"starts_with tests: {sorted(starts)}", r["file"], r["line"])
     rep.ob("reversal", "both-output-sections", {"INIT_ARRAY", "FINI_ARRAY"} <= consts, f"output sections tested: {sorted(c for c in consts if 'ARRAY' in c)}", r["file"], r["line"])
-    rep.assume("the order of entries in the output depends on layout and input order: not decided")
+    priority_pipeline(ctx, rep, F)
+    rep.assume("the relative order of entries that share a priority follows the general input-order layout of parts (C06/C08): not decided here")
+
+
+def priority_pipeline(ctx, rep, F):
+    """How a priority reaches the output order: name -> InitFiniSectionDetail.priority -> secondary section keyed (primary, priority) ->
+    OutputOrderBuilder::add_section emits the secondaries of a primary in ascending priority with a stable sort."""
+    from mir import callee_key, op_const, expr_tree, render
+    P = ctx.program()
+    OS = "libwild::output_section_id::"
+    rep.rule("priority-pipeline", "the priority parsed from the section name is stored in InitFiniSectionDetail under the SortedSection outcome only; "
+             "get_or_create_init_fini_secondary keys secondaries by (primary, priority) and tags the new section InitFini{same priority}; "
+             "add_section sorts a primary's secondaries by that priority, ascending, with a stable sort, untagged secondaries last (u16::MAX), and emits them in sorted order")
+    # (1) detail built from init_section_priority(section_name)
+    n_det = 0
+    for b in F.all_bodies:
+        if not b.key.startswith("libwild::resolution::"):
+            continue
+        flow = None
+        for bi, blk in enumerate(b.blocks):
+            if blk.get("cleanup"):
+                continue
+            for st in blk["s"]:
+                if st["k"] == "assign" and st["rv"]["k"] == "agg" and str(st["rv"].get("adt") or "").endswith("InitFiniSectionDetail"):
+                    flow = flow or P.flow(b)
+                    n_det += 1
+                    fields = st["rv"].get("fields") or []
+                    ops = st["rv"]["ops"]
+                    pri_op = ops[fields.index("priority")] if "priority" in fields else (ops[2] if len(ops) > 2 else None)
+                    src = {(x[1] or "").split("::")[-1] for x in flow.deep_origins(pri_op) if x[0] == "call"} if pri_op else set()
+                    rep.ob("priority-pipeline", f"detail:{b.key.split('::')[-1]}:priority-source", "init_section_priority" in src,
+                           f"InitFiniSectionDetail.priority derives from {sorted(src)}", b.file, st.get("l"))
+                    import decide
+                    at = {str(a[0]): a[1] for a in decide.atoms_at(P, F, b, bi)}
+                    arm = at.get("variant:SectionRuleOutcome")
+                    rep.ob("priority-pipeline", f"detail:{b.key.split('::')[-1]}:sorted-outcome", arm == frozenset({"SortedSection"}),
+                           f"built on the outcome arm {sorted(arm) if arm else arm}", b.file, st.get("l"))
+    rep.floor("priority-pipeline", "constructions of InitFiniSectionDetail", n_det, 1)
+    # (2) secondary keyed by (primary, priority) and tagged with the same priority
+    g = F.body(OS + "OutputSections::get_or_create_init_fini_secondary")
+    if g is None:
+        rep.lost("priority-pipeline", "OutputSections::get_or_create_init_fini_secondary")
+    else:
+        gf = P.flow(g)
+        pri_param = next((i for i in range(1, g.d["argc"] + 1) if g.locals[i].strip() == "u16"), None)
+        key_ok = tag_ok = False
+        for blk in g.blocks:
+            for st in blk["s"]:
+                if st["k"] != "assign" or st["rv"]["k"] != "agg":
+                    continue
+                if st["rv"]["ak"] == "tuple" and len(st["rv"]["ops"]) == 2:
+                    o = gf.origins(st["rv"]["ops"][1])
+                    key_ok = key_ok or o == {("param", pri_param)}
+                if str(st["rv"].get("adt") or "").endswith("SecondaryOrder") and st["rv"].get("variant") == "InitFini":
+                    o = gf.origins(st["rv"]["ops"][0])
+                    tag_ok = tag_ok or o == {("param", pri_param)}
+        names = [(callee_key(t["f"]) or "").split("::")[-1] for _bi, t in gf.calls()]
+        rep.ob("priority-pipeline", "secondary:key", key_ok and "get" in names and "insert" in names, "the lookup/insert key is (primary, priority)", g.file, g.line)
+        rep.ob("priority-pipeline", "secondary:tag", tag_ok, "a new secondary is tagged SecondaryOrder::InitFini { priority } with the priority it was asked for", g.file, g.line)
+    # (3) emission order
+    a = F.body(OS + "OutputOrderBuilder::add_section")
+    if a is None:
+        rep.lost("priority-pipeline", "OutputOrderBuilder::add_section")
+        return
+    af = P.flow(a)
+    sorts = [(bi, t) for bi, t in af.calls() if "sort" in (callee_key(t["f"]) or "").split("::")[-1]]
+    rep.ob("priority-pipeline", "emit:one-sort", len(sorts) == 1, f"{len(sorts)} sort call(s) in add_section", a.file, a.line)
+    for bi, t in sorts:
+        tail = (callee_key(t["f"]) or "").split("::")[-1]
+        rep.ob("priority-pipeline", "emit:stable", tail in ("sort_by_key", "sort_by", "sort", "sort_by_cached_key"),
+               f"{tail}: " + ("stable - sections of equal priority keep their creation order" if "unstable" not in tail else "unstable: equal keys may be permuted"), a.file, t["l"])
+    cls = F.closures_of(OS + "OutputOrderBuilder::add_section")
+    key_cl = next((c for c in cls if c.locals[0].strip() == "u16"), None)
+    map_cl = next((c for c in cls if c.locals[0].strip().startswith("(u16")), None)
+    if key_cl is None or map_cl is None:
+        rep.lost("priority-pipeline", "the key closure (-> u16) / the mapping closure (-> (u16, OutputSectionId)) of add_section")
+        return
+    kf = P.flow(key_cl)
+    ret = render(expr_tree(P, key_cl, ("c", (0, [])), depth=4, expand_params=0))
+    asc = True
+    for blk in key_cl.blocks:
+        for st in blk["s"]:
+            if st["k"] == "assign" and st["rv"]["k"] in ("bin", "un"):
+                asc = False
+        if blk["t"]["k"] == "call":
+            asc = False
+    first = any(st["k"] == "assign" and st["rv"]["k"] == "ref" and st["rv"]["p"][1][-1:] == [".0"] for blk in key_cl.blocks for st in blk["s"]) or ".0" in ret
+    rep.ob("priority-pipeline", "emit:key", asc and first, f"sort key = the tuple's first component, unmodified (ascending priority): {ret}", key_cl.file, key_cl.line)
+    mf = P.flow(map_cl)
+    comp0 = None
+    for blk in map_cl.blocks:
+        for st in blk["s"]:
+            if st["k"] == "assign" and st["p"] == [0, []] and st["rv"]["k"] == "agg" and st["rv"]["ak"] == "tuple":
+                comp0 = st["rv"]["ops"][0]
+    ok_tag = ok_default = False
+    if comp0 is not None:
+        # every definition of the first component: the InitFini priority, or u16::MAX
+        seen = []
+
+        def defs_of(op, depth=0):
+            if op[0] == "k":
+                seen.append(("const", op[1].get("val")))
+                return
+            ds = mf.defs.get(op[1][0], [])
+            for _bi, si, _proj, payload in ds:
+                if si == "call":
+                    seen.append(("call", callee_key(payload["f"])))
+                elif payload["k"] == "use" and depth < 6:
+                    a_ = payload["a"]
+                    if a_[0] != "k" and a_[1][1]:
+                        seen.append(("place", tuple(a_[1][1])))
+                    else:
+                        defs_of(a_, depth + 1)
+                else:
+                    seen.append(("other", payload["k"]))
+        defs_of(comp0)
+        ok_tag = any(k == "place" and "@InitFini" in v and ".priority" in v for k, v in seen)
+        ok_default = any(k == "const" and v == 65535 for k, v in seen) and all(k in ("place", "const") for k, v in seen)
+        rep.ob("priority-pipeline", "emit:key-source", ok_tag and ok_default, f"first component = InitFini priority, or u16::MAX for untagged secondaries ({seen})", map_cl.file, map_cl.line)
+    else:
+        rep.lost("priority-pipeline", "tuple built by the mapping closure")
+    # the sorted vector is what gets emitted: the push of Section(sid) inside the loop over `keyed`
+    srt = sorts[0][0] if sorts else None
+    emitted = False
+    for bi, t in af.calls():
+        if (callee_key(t["f"]) or "").endswith("::into_iter") and srt is not None:
+            o = af.deep_origins(t["args"][0])
+            if any(x[0] == "call" and (x[1] or "").split("::")[-1] in ("collect", "from_iter") for x in o) and P.cfg(a).dominates(srt, bi):
+                emitted = True
+    rep.ob("priority-pipeline", "emit:sorted-vector-is-emitted", emitted, "the loop that pushes OrderEvent::Section iterates the collected vector after it was sorted", a.file, a.line)
